@@ -10,7 +10,7 @@ Import ListNotations.
 Section Visit.
   Variable A : CsgOps.
   Hypothesis LW : CsgLaws A.
-  Variable uniq : nat -> nat -> bool.
+  Variable uniq : heap A -> nat -> bool.
   Variable ovl : (sol A * tr A) -> (sol A * tr A) -> bool.
   Variable sz : (sol A * tr A) -> Z.
   Variable kmax : nat.
@@ -533,7 +533,7 @@ End Visit.
 (* evaluation never changes the NUMBER of cells (fuel accounting for histories) *)
 Section Len.
   Variable A : CsgOps.
-  Variable uniq : nat -> nat -> bool.
+  Variable uniq : heap A -> nat -> bool.
   Variable ovl : (sol A * tr A) -> (sol A * tr A) -> bool.
   Variable sz : (sol A * tr A) -> Z.
   Variable kmax : nat.
